@@ -34,6 +34,7 @@ type adef struct {
 	Lang  string `json:"lang"`
 	Tpl   string `json:"tpl"`
 	Wh    string `json:"wh"`
+	Wht   string `json:"wht"`
 	Rname string `json:"rname"`
 	Cname string `json:"cname"`
 }
@@ -118,7 +119,15 @@ func renderDef(d adef) []byte {
 		whVar = "@webhook.json.foo"
 	}
 	act := M{"uuid": c16Act0, "type": "send_msg", "text": whText}
-	spa := M{c16Act0: M{"text": []string{"ES " + whText}}, c16Cat0: M{"name": []string{"Sí"}}}
+	// the translations refer to the webhook in their own way (d.Wht), whatever the base texts do
+	tText, tVar := "Hi @contact.name", "@contact.name"
+	switch d.Wht {
+	case "old":
+		tText, tVar = "Result: @webhook.foo and @(upper(webhook.bar)) raw @webhook done @(webhook.list[0])", "@webhook.foo"
+	case "new":
+		tText, tVar = "Result: @webhook.json.foo and @(upper(webhook.json.bar)) raw @webhook.json done @(webhook.json.list[0])", "@webhook.json.foo"
+	}
+	spa := M{c16Act0: M{"text": []string{"ES " + tText}}, c16Cat0: M{"name": []string{"Sí"}}}
 	tplRef := M{"uuid": "5722e1fd-fe32-4e74-ac78-3cf41a6adb7e", "name": "affirmation"}
 	vars := []string{whVar, "@fields.age"}
 	switch d.Tpl {
@@ -126,14 +135,14 @@ func renderDef(d adef) []byte {
 		act["templating"] = M{"template": tplRef, "variables": vars}
 	case "uuid":
 		act["templating"] = M{"uuid": c16TplUUID, "template": tplRef, "variables": vars}
-		spa[c16TplUUID] = M{"variables": []string{"ES " + whVar, "@fields.edad"}}
+		spa[c16TplUUID] = M{"variables": []string{"ES " + tVar, "@fields.edad"}}
 	case "comp":
 		act["templating"] = M{"template": tplRef, "components": []M{{"uuid": c16CompUUID, "name": "body", "params": vars}}}
-		spa[c16CompUUID] = M{"params": []string{"ES " + whVar, "@fields.edad"}}
+		spa[c16CompUUID] = M{"params": []string{"ES " + tVar, "@fields.edad"}}
 	case "flat":
 		act["template"] = tplRef
 		act["template_variables"] = vars
-		spa[c16Act0].(M)["template_variables"] = []string{"ES " + whVar, "@fields.edad"}
+		spa[c16Act0].(M)["template_variables"] = []string{"ES " + tVar, "@fields.edad"}
 	}
 	rname, cname := "Response 1", "Yes"
 	if d.Rname == "long" {
@@ -153,7 +162,7 @@ func renderDef(d adef) []byte {
 		{"uuid": c16Act2, "type": "set_run_result", "name": rname, "value": whText, "category": cname}},
 		"exits": []M{{"uuid": c16Exit2, "destination_uuid": c16Node0}}}
 	nodes := []M{node0, node1}
-	if d.Wh != "none" && d.Wh != "" {
+	if (d.Wh != "none" && d.Wh != "") || (d.Wht != "none" && d.Wht != "") {
 		// the same references in every other place a template can live: webhook url / headers / body, e-mail, contact
 		// modifiers, quick replies, attachments, a router's operand and case arguments, and their translations
 		node2 := M{"uuid": c16Node2, "actions": []M{
@@ -167,9 +176,9 @@ func renderDef(d adef) []byte {
 				"cases":      []M{{"uuid": c16Case1, "type": "has_any_word", "arguments": []string{"x " + whVar}, "category_uuid": c16Cat2}},
 				"categories": []M{{"uuid": c16Cat2, "name": "Has", "exit_uuid": c16Exit3}, {"uuid": c16Cat3, "name": "Other", "exit_uuid": c16Exit4}}},
 			"exits": []M{{"uuid": c16Exit3}, {"uuid": c16Exit4, "destination_uuid": c16Node0}}}
-		spa[c16Act7] = M{"text": []string{"ES T " + whVar}, "quick_replies": []string{"ES Q " + whVar}}
-		spa[c16Case1] = M{"arguments": []string{"es " + whVar}}
-		spa[c16Act4] = M{"subject": []string{"ES S " + whVar}, "body": []string{"ES B " + whVar}}
+		spa[c16Act7] = M{"text": []string{"ES T " + tVar}, "quick_replies": []string{"ES Q " + tVar}}
+		spa[c16Case1] = M{"arguments": []string{"es " + tVar}}
+		spa[c16Act4] = M{"subject": []string{"ES S " + tVar}, "body": []string{"ES B " + tVar}}
 		nodes = append(nodes, node2)
 	}
 	lang := d.Lang
@@ -214,7 +223,7 @@ func graphOf(data []byte) (graph, error) {
 func abstractDef(data []byte) adef {
 	var f map[string]any
 	json.Unmarshal(data, &f)
-	a := adef{Tpl: "none", Wh: "none", Rname: "ok", Cname: "ok"}
+	a := adef{Tpl: "none", Wh: "none", Wht: "none", Rname: "ok", Cname: "ok"}
 	sv, _ := f["spec_version"].(string)
 	fmt.Sscanf(sv, "13.%d", &a.Ver)
 	a.Lang, _ = f["language"].(string)
@@ -241,6 +250,15 @@ func abstractDef(data []byte) adef {
 				a.Wh = "new"
 			} else if strings.Contains(txt, "webhook") {
 				a.Wh = "old"
+			}
+			a.Wht = "none"
+			if loc, ok := f["localization"].(map[string]any); ok {
+				lj := string(mustJSON(loc))
+				if strings.Contains(lj, "webhook.json") {
+					a.Wht = "new"
+				} else if strings.Contains(lj, "webhook") {
+					a.Wht = "old"
+				}
 			}
 		}
 		if r, ok := n0["router"].(map[string]any); ok {
